@@ -14,6 +14,15 @@ tech={
  'C09':'CFG ordering (ack before handler start), self-disabling-branch check in the response reader, value-origin slices for stream routing, queue/lock discipline lint, alias taint',
  'C10':'typestate/lockset checks of the stream stop protocol, must-pass-through on reader exit, sibling effect-set comparison of the two server teardown sequences',
  'C11':'field-based buffer-alias taint with guard-dominated exemptions + use-after-release / ownership-transfer typestate over go/ssa',
+ 'C12':'sibling agreement of option-resolution signatures (guard dominance of registry vs constructor), call-graph funnel counts, header field-mapping agreement of encoder and default arms',
+ 'C13':'invariant by enumeration of mutation sites: must-lockset, guard dominance of every pool growth/dial, must-pass-through pairing of removals, writer table for the limit fields',
+ 'C14':'value-origin slices for addresses, must-pass-through of the alive re-check on every pooled hand-out path, must-pass-through of checkPersistConnErr in every call form, return-origin check for ErrDial',
+ 'C15':'guard dominance of closes/removals by NumCalls()==0, must-pass-through in Transport.Close, select-arm exit of housekeeping, lockset+origin check of NumCalls',
+ 'C16':'must-lockset, same-critical-section of Update and of the live-list rebuild, value-origin slices of list elements and of every address handed to the RoundTripper',
+ 'C17':'value-origin slices of scheduled picks, must-pass-through cursor advance, dominance of heapify, guard dominance of the probe arm (numeric behaviour declared undecided)',
+ 'C18':'flag/table rendez-vous (lockset + guard dominance) for waiters, select-arm analysis with timer origin, must-pass-through wake-ups, return-origin checks of error forms',
+ 'C19':'select-arm CFG analysis of CallWithContext, recycle typestate, capacity-guard dominance, parameter-origin check of ctx forwarding',
+ 'C20':'must-pass-through pairing of scheduler.New/Close, loop-exit reachability of goroutine bodies, CAS guard dominance of close(ch), return-origin checks of Close results',
 }
 built=sorted(tech)
 checks=[]
